@@ -29,32 +29,71 @@ class Printer:
         self.rng = rng
         self.freedoms = freedoms if freedoms is not None else set()
         self.lines = []
+        self.line_kinds = []
         self.line_tags = {}
+        self.no_break = 0
+        self.breaks_in_stmt = 0
 
+    NO_BREAK = {"break_binary", "args_lines", "list_lines", "chain_break", "comment_inline"}
+    def header_expr(self, e, prec=0):
+        """Conditions / subjects / iterables in block headers stay on one line (a header's expression cannot be broken)."""
+        self.no_break += 1
+        try:
+            return self.expr(e, prec)
+        finally:
+            self.no_break -= 1
+
+    BREAKS = {"break_binary", "args_lines", "list_lines", "chain_break"}
     def flip(self, name, p=0.3):
-        return self.rng is not None and name in self.freedoms and self.rng.random() < p
+        if self.no_break and name in self.NO_BREAK:
+            return False
+        if name in self.BREAKS and self.breaks_in_stmt > 0:
+            # one broken construct per statement: a second break after a break inside a nested operand needs deeper
+            # indentation than the first (layout rule of the parser) - variants stay within the plainly documented form
+            return False
+        r = self.rng is not None and name in self.freedoms and self.rng.random() < p
+        if r and name in self.BREAKS:
+            self.breaks_in_stmt += 1
+        return r
 
     # ---- statements -------------------------------------------------------------------------
     def program(self, block, prelude=""):
         self.lines = prelude.split("\n") if prelude else []
         if self.lines and self.lines[-1] == "":
             self.lines.pop()
+        self.line_kinds = ["prelude"] * len(self.lines)
         self.block(block, 0)
-        return "\n".join(self.lines) + "\n"
+        text = "\n".join(self.lines) + "\n"
+        if self.flip("crlf", 0.15):
+            text = text.replace("\n", "\r\n")
+        return text
 
-    def emit(self, text, ind, tag=None):
+    def emit(self, text, ind, tag=None, kind="complete"):
+        """kind: 'header' (an indented block must follow), 'complete' (a complete statement), 'arm' (a match/switch arm
+        header, not judged by the prefix oracle)."""
         if self.flip("blank", 0.08):
             self.lines.append("")
+            self.line_kinds.append("trivia")
         if self.flip("comment_line", 0.06):
             self.lines.append("  " * ind + "# note %d" % len(self.lines))
+            self.line_kinds.append("trivia")
+        if self.flip("comment_multi", 0.03):
+            self.lines.append("  " * ind + "#- note")
+            self.lines.append("  " * ind + "   %d -#" % len(self.lines))
+            self.line_kinds += ["trivia", "trivia"]
+        self.breaks_in_stmt = 0
+        text = text.replace("\x00", "\n" + "  " * (ind + 1)).replace("\x01", "\n" + "  " * ind)
         line = "  " * ind + text
-        if self.flip("comment_eol", 0.06) and "'" not in text and '"' not in text:
+        if self.flip("comment_eol", 0.06):
             line += "  # c"
         if self.flip("trailing_ws", 0.06):
             line += "  "
         if tag is not None:
             self.line_tags.setdefault(len(self.lines), []).append(tag)
-        self.lines.append(line)
+        parts = line.split("\n")
+        for i, part in enumerate(parts):
+            self.lines.append(part)
+            self.line_kinds.append(kind if i == len(parts) - 1 else "continued")
 
     def block(self, stmts, ind):
         if not stmts:
@@ -78,8 +117,13 @@ class Printer:
     def s_assign(self, n, ind, prefix):
         target, e = n[1], n[2]
         head = prefix + self.target(target) + " = "
-        if self.is_blocky(e):
+        if self.is_blocky(e) or (e[0] == "fn" and self.flip("fn_block", 0.4)):
             return self.stmt(e, ind, head)
+        if e[0] == "map" and e[1] and self.flip("map_block", 0.4) and all(self.mapkey(k)[:1] not in "'@" and self.is_simple(v) and v[0] not in ("fn", "if", "map") for k, v in e[1]):
+            self.emit(head.rstrip(), ind, tag=n, kind="header")
+            for k, v in e[1]:
+                self.emit(self.mapkey(k) + ": " + self.expr(v, 1), ind + 1)
+            return
         self.emit(head + self.expr(e, 0), ind, tag=n)
     def s_return(self, n, ind, prefix):
         if n[1] is None:
@@ -130,37 +174,42 @@ class Printer:
             return self.emit(prefix + self.expr(n, 0), ind, tag=n)
         first = True
         for cond, blk in n[1]:
-            self.emit((prefix if first else "") + ("if " if first else "else if ") + self.expr(cond, 0), ind, tag=n if first else None)
+            self.emit((prefix if first else "") + ("if " if first else "else if ") + self.header_expr(cond), ind, tag=n if first else None, kind="header")
             self.block(blk, ind + 1)
             first = False
         if n[2] is not None:
-            self.emit("else", ind)
+            self.emit("else", ind, kind="header")
             self.block(n[2], ind + 1)
     def s_switch(self, n, ind, prefix):
-        self.emit(prefix + "switch", ind, tag=n)
+        self.emit(prefix + "switch", ind, tag=n, kind="header")
         for cond, blk in n[1]:
-            head = "else" if cond is None else self.expr(cond, 0) + " then"
+            head = "else" if cond is None else self.header_expr(cond) + " then"
             self.arm(head, blk, ind + 1)
     def arm(self, head, blk, ind):
         if len(blk) == 1 and self.is_simple(blk[0]) and not self.flip("arm_block", 0.4):
-            self.emit(head + " " + self.expr(blk[0], 1 if head == "else" else 0), ind)
+            self.emit(head + " " + self.header_expr(blk[0], 1 if head == "else" else 0), ind)
         else:
-            self.emit(head, ind)
+            self.emit(head, ind, kind="arm")
             self.block(blk, ind + 1)
     def s_match(self, n, ind, prefix):
-        self.emit(prefix + "match " + ", ".join(self.expr(s, 0) for s in n[1]), ind, tag=n)
+        self.emit(prefix + "match " + ", ".join(self.header_expr(s) for s in n[1]), ind, tag=n, kind="header")
         for alts, guard, blk in n[2]:
             if alts is None:
                 head = "else"
             else:
                 head = " or ".join(", ".join(self.pattern(p) for p in alt) for alt in alts)
                 if guard is not None:
-                    head += " if " + self.expr(guard, 0)
+                    head += " if " + self.header_expr(guard)
                 head += " then"
             self.arm(head, blk, ind + 1)
     def pattern(self, p):
         k = p[0]
-        if k == "plit": return self.expr(p[1], 0)
+        if k == "plit":
+            saved, self.rng = self.rng, None      # (-2) would be a tuple pattern: literals in patterns are printed plainly
+            try:
+                return self.expr(p[1], 0)
+            finally:
+                self.rng = saved
         if k == "var": return p[1] + (": " + p[2] if len(p) > 2 and p[2] else "")
         if k == "ignore": return "_" + (": " + p[1] if len(p) > 1 and p[1] else "")
         if k == "rest": return (p[1] or "") + "..."
@@ -168,33 +217,41 @@ class Printer:
         if k == "mpat": return "{" + ", ".join(key if key == name else key + " as " + name for key, name in p[1]) + "}"
         raise ValueError("pattern " + k)
     def s_while(self, n, ind, prefix):
-        self.emit(prefix + "while " + self.expr(n[1], 0), ind, tag=n); self.block(n[2], ind + 1)
+        self.emit(prefix + "while " + self.header_expr(n[1]), ind, tag=n, kind="header"); self.block(n[2], ind + 1)
     def s_until(self, n, ind, prefix):
-        self.emit(prefix + "until " + self.expr(n[1], 0), ind, tag=n); self.block(n[2], ind + 1)
+        self.emit(prefix + "until " + self.header_expr(n[1]), ind, tag=n, kind="header"); self.block(n[2], ind + 1)
     def s_loop(self, n, ind, prefix):
-        self.emit(prefix + "loop", ind, tag=n); self.block(n[1], ind + 1)
+        self.emit(prefix + "loop", ind, tag=n, kind="header"); self.block(n[1], ind + 1)
     def s_for(self, n, ind, prefix):
         it = n[2]
+        self.no_break += 1
         its = self.range_text(it) if it[0] == "range" else self.expr(it, 0)
-        self.emit(prefix + "for " + ", ".join(self.target(t) for t in n[1]) + " in " + its, ind, tag=n)
+        self.no_break -= 1
+        self.emit(prefix + "for " + ", ".join(self.target(t) for t in n[1]) + " in " + its, ind, tag=n, kind="header")
         self.block(n[3], ind + 1)
     def s_try(self, n, ind, prefix):
-        self.emit(prefix + "try", ind, tag=n)
+        self.emit(prefix + "try", ind, tag=n, kind="header")
         self.block(n[1], ind + 1)
         for target, hint, blk in n[2]:
             t = "_" if target is None else target[1]
             if hint is not None: t += ": " + hint
-            self.emit("catch " + t, ind)
+            self.emit("catch " + t, ind, kind="header")
             self.block(blk, ind + 1)
         if n[3] is not None:
-            self.emit("finally", ind)
+            self.emit("finally", ind, kind="header")
             self.block(n[3], ind + 1)
     def s_fn(self, n, ind, prefix):
-        self.emit(prefix + self.fn_head(n), ind, tag=n)
+        self.emit(prefix + self.fn_head(n), ind, tag=n, kind="header")
         self.block(n[3], ind + 1)
     def fn_inline_ok(self, n):
         return len(n[3]) == 1 and self.is_simple(n[3][0]) and n[3][0][0] != "fn" and not (len(n) > 6 and n[6] == "block")
     def fn_head(self, n):
+        self.no_break += 1      # a function header stays on one line
+        try:
+            return self.fn_head_inner(n)
+        finally:
+            self.no_break -= 1
+    def fn_head_inner(self, n):
         ps = []
         for target, default in n[1]:
             s = self.param(target)
@@ -232,7 +289,7 @@ class Printer:
         """prec: the binding strength required by the context (0 = none, 10 = postfix operand)."""
         k = n[0]
         s, p = getattr(self, "x_" + k)(n, stmt)
-        if p < prec or (p < 10 and self.flip("parens", 0.07)):
+        if p < prec or (p < 10 and k in ("bin", "neg", "cmpchain", "int", "float", "if", "pipe") and self.flip("parens", 0.07)):
             return "(" + s + ")"
         return s
 
@@ -259,12 +316,20 @@ class Printer:
             if isinstance(p, str):
                 out.append(quote(p, q))
             else:
-                inner = self.expr(p[1], 0)
+                self.no_break += 1       # a placeholder cannot span lines or hold comments
+                try:
+                    inner = self.expr(p[1], 0)
+                finally:
+                    self.no_break -= 1
                 spec = p[2] if len(p) > 2 and p[2] else ""
                 out.append("{" + inner + (":" + spec if spec else "") + "}")
         out.append(q)
         return "".join(out), 10
-    def x_list(self, n, stmt): return "[" + self.seq(n[1]) + "]", 10
+    def x_list(self, n, stmt):
+        items = [self.expr(x, 1) for x in n[1]]
+        if len(items) >= 2 and self.flip("list_lines", 0.08) and not any("\x00" in i or "\x01" in i or "\n" in i for i in items):
+            return "[\x00" + ",\x00".join(items) + ("," if self.flip("list_lines", 0.5) else "") + "\x01]", 10
+        return "[" + ", ".join(items) + "]", 10
     def x_tuple(self, n, stmt):
         if len(n[1]) == 1: return "(" + self.expr(n[1][0], 1) + ",)", 10
         return "(" + self.seq(n[1]) + ")", 10
@@ -297,8 +362,10 @@ class Printer:
         else:
             a = self.expr(n[2], p)
             b = self.expr(n[3], p + 0.5)
-        if self.flip("break_binary", 0.05) and "\n" not in a + b and "#" not in a + b:
-            return a + " " + op + "\n      " + b, p
+        if self.flip("break_binary", 0.05) and "\n" not in a + b and "\x00" not in a + b and "\x01" not in a + b:
+            return a + " " + op + "\x00" + b, p
+        if self.flip("comment_inline", 0.03):
+            return a + " " + op + " #- c -# " + b, p
         return a + " " + op + " " + b, p
     def x_cmpchain(self, n, stmt):
         p = min(PREC[o] for o in n[2])
@@ -323,9 +390,17 @@ class Printer:
         f = self.expr(n[1], 10)
         if stmt and n[2] and self.flip("paren_free", 0.5) and n[1][0] == "var" and all(a[0] != "fn" for a in n[2]):
             return f + " " + self.args(n[2]), 0
+        if len(n[2]) >= 2 and self.flip("args_lines", 0.06):
+            parts = [self.args([a]) for a in n[2]]
+            if not any("\x00" in i or "\x01" in i or "\n" in i for i in parts):
+                return f + "(\x00" + ",\x00".join(parts) + "\x01)", 10
         return f + "(" + self.args(n[2]) + ")", 10
     def x_mcall(self, n, stmt):
         o = self.expr(n[1], 10)
+        if self.flip("chain_break", 0.06) and not any(c in o for c in "\x00\x01\n") and n[1][0] in ("var", "mcall", "call"):
+            rest = "." + n[2] + "(" + self.args(n[3]) + ")"
+            if not any(c in rest for c in "\x00\x01\n"):
+                return o + "\x00" + rest, 10
         if stmt and n[3] and self.flip("paren_free", 0.5) and all(a[0] != "fn" for a in n[3]):
             return o + "." + n[2] + " " + self.args(n[3]), 0
         return o + "." + n[2] + "(" + self.args(n[3]) + ")", 10
@@ -343,13 +418,23 @@ class Printer:
         s = self.expr(e, 0)
         return s[:1] in "(-["
     def x_if(self, n, stmt):
+        self.no_break += 1      # an inline if stays on one line
+        try:
+            return self.x_if_inner(n, stmt)
+        finally:
+            self.no_break -= 1
+    def x_if_inner(self, n, stmt):
         cond, blk = n[1][0]
-        s = "if " + self.expr(cond, 1) + " then " + self.expr(blk[0], 1)
+        s = "if " + self.header_expr(cond, 1) + " then " + self.expr(blk[0], 1)
         if n[2] is not None:
             s += " else " + self.expr(n[2][0], 1)
         return s, 0
     def x_fn(self, n, stmt):
-        return self.fn_head(n) + " " + self.expr(n[3][0], 0), 0
+        self.no_break += 1      # an inline function body stays on one line
+        try:
+            return self.fn_head(n) + " " + self.expr(n[3][0], 0), 0
+        finally:
+            self.no_break -= 1
     def x_assign(self, n, stmt):
         return self.target(n[1]) + " = " + self.expr(n[2], 0), 0
     def x_opassign(self, n, stmt):
@@ -367,3 +452,8 @@ KEYWORDS = {"as", "and", "break", "catch", "continue", "debug", "else", "export"
             "await", "const", "let"}
 
 TRACE_PRELUDE = "t = |k, v|\n  print('T{k}')\n  v\n"
+
+TRIVIA_FREEDOMS = {"blank", "comment_line", "comment_eol", "comment_multi", "comment_inline", "trailing_ws", "crlf"}
+SPELLING_FREEDOMS = {"parens", "paren_free", "quotes", "numspell"}
+LAYOUT_FREEDOMS = {"if_block", "arm_block", "fn_block", "map_block", "break_binary", "args_lines", "list_lines", "chain_break"}
+ALL_FREEDOMS = TRIVIA_FREEDOMS | SPELLING_FREEDOMS | LAYOUT_FREEDOMS
